@@ -232,6 +232,24 @@ Theorem c14_artifact_federation_sequences : forall (sha1 : string -> string),
 Proof. exact artfed_seq_holds. Qed.
 Print Assumptions c14_artifact_federation_sequences.
 
+(* several long-lived resolvers in one process, each configured with NAMED metadata sources (files, URLs, loaders,
+   inline documents): for every interleaving of loads (construction, reload_metadata, a new Entity on a reloaded
+   store) and resolutions, each resolution is right with respect to the documents of the configuration which the
+   resolver that performs it has loaded most recently — whatever the sources are called (the same names as before
+   or new ones), whatever was loaded before, whatever other resolvers have loaded *)
+Theorem c14_artifact_federation_receivers : forall (sha1 : string -> string),
+  (forall e, String.length (sha1 e) = 20) ->
+  forall ops st, mseq_guard sha1 st ops -> mseq_spec st ops (run_multi sha1 st ops).
+Proof. exact artfed_mseq_holds. Qed.
+Print Assumptions c14_artifact_federation_receivers.
+
+(* the SourceID table is a function of the documents, not of the names of the sources *)
+Theorem c14_source_names_irrelevant : forall (sha1 : string -> string) (cfg cfg' : mdconfig),
+  NoDup (map fst cfg) -> NoDup (map fst cfg') -> map snd cfg = map snd cfg' ->
+  store_source_id sha1 (store_load cfg) = store_source_id sha1 (store_load cfg').
+Proof. exact source_names_irrelevant. Qed.
+Print Assumptions c14_source_names_irrelevant.
+
 (* finding class 6 (repaired by fbf0c2eb): index="01" in the metadata, artifact created with index 1 -> the code
    before the repair (text comparison, resolve_in_v0) found no destination ... *)
 Theorem c14_artifact_index_spelling_v0_refuted : forall (sha1 : string -> string),
@@ -371,3 +389,18 @@ Print Assumptions c14_source2_artifact2destination.
 Theorem c14_source2_int16 : forall b, int16_str b = option_map dec_of_Z (int16_z b).
 Proof. exact int16_str_z. Qed.
 Print Assumptions c14_source2_int16.
+
+(* MetadataStore.construct_source_id as it reads NOW (round 6): on a store that holds the named sources cfg, it returns
+   the model's table of the documents — one dict.update per source in the order of self.metadata, and nothing else:
+   no state of the store other than the sources it holds now enters (a table kept from an earlier call, keyed by the
+   names of the sources or by anything else, cannot satisfy this for two configurations with the same names and
+   different documents).  The per-source InMemoryMetaData.construct_source_id is the hypothesis md_csi. *)
+Theorem c14_source2_store_construct_source_id :
+  forall (sha1 : string -> string) (md_csi : pyval -> pyval) (enc_md : source -> pyval),
+  (forall e, String.length (sha1 e) = 20) ->
+  (forall src, md_csi (enc_md src) = PObj (enc_table (construct_source_id sha1 src))) ->
+  forall cfg : mdconfig, names_ok cfg = true ->
+  src2_store_construct_source_id md_csi (enc_store enc_md cfg)
+  = PObj (enc_table (store_source_id sha1 (map snd cfg))).
+Proof. exact src2_store_source_id. Qed.
+Print Assumptions c14_source2_store_construct_source_id.
